@@ -26,7 +26,7 @@ class Field:
         if self.kind == "zeros":
             return (self.size, "zeros")
         if self.kind == "int":
-            return (self.size, "int", self.order, self.src)
+            return (self.size if self.size is not None or not self.code else self.code, "int", self.order, self.src)
         if self.kind == "alt":
             return (self.size, "alt", self.test, [[f.desc() for f in a] for a in (self.alts or [])])
         if self.kind == "repeat":
@@ -148,6 +148,8 @@ class Layout:
             return [Field(ta if ta == tb else None, "alt", alts=[a, b], test=norm(e.test))]
         if isinstance(e, ast.Call):
             nm = A.call_name(e)
+            if nm in ("bytes", "bytearray") and not e.args and not e.keywords and isinstance(e.func, ast.Name):
+                return [Field(0, "zeros")]
             if nm in ("bytes", "bytearray") and len(e.args) == 1 and not e.keywords:
                 n = self.fold(e.args[0])
                 if isinstance(n, int):
@@ -169,7 +171,7 @@ class Layout:
                     o = A.arg_of(e, 1, "byteorder")
                 size = self.fold(n) if n is not None else None
                 return [Field(size if isinstance(size, int) else None, "int", src=self.src(x) if x is not None else "?", order=self.order(o) if o is not None else "big",
-                              code=norm(n) if n is not None else "")]
+                              code=self.src(n) if n is not None else "")]
             if nm == "join" and isinstance(e.func, ast.Attribute) and isinstance(e.func.value, ast.Constant) and e.func.value.value == b"" and len(e.args) == 1:
                 return self.chunks(e.args[0])
             if nm in ("pack", "pack_into") and e.args and not isinstance(self.fold(e.args[0]), str):
